@@ -42,6 +42,7 @@ PartitionInv == stage = 2 =>
                 (* never separates equivalent states *)
                 /\ \A C \in NerodePartition(D) : \E B \in P : C \subseteq B
 DoneIsNerode == Done => P = NerodePartition(D)
+DoneIsMoore == Done => P = MoorePartition(D)        \* the same statement through the cheap formulation
 DoneResultOk == Done => ResultOk(D, M)
 InputUnchanged == [][stage = 2 => D' = D]_vars
 Terminates == <>Done
